@@ -43,7 +43,8 @@ def step_signatures(case, res, step, divs, shp):
         obs = prim["obs"] if prim else None
         if cls == "fallback_failed":
             obs = obs[1]
-            o = "ins"
+        if src.get("fallback") and o == "upd":
+            o = "ins"          # the failing call is the insert of the caller's delete+insert fallback
         err = btree.errnorm(obs)
         failed = ",".join(shp["failed"]) if shp else ""
         fp = (prim or shp or {}).get("fastpath") and (prim or shp or {}).get("fastpath_leaf_empty")
